@@ -1,0 +1,43 @@
+//go:build verif
+
+// Machine-checked contracts for package l4throttle (comment-only; read by /verif/gvc).
+
+package l4throttle
+
+// C17, per call: the batch is min(len(p), configured bursts); every configured limiter has granted
+// exactly `batch` tokens before the inner read; at most `batch` bytes are pulled; they are the
+// inner connection's next bytes, unchanged and in order (rstream/rpos of the inner conn).
+// With the assumed rate.Limiter contract (tokens accrue at rate r, capped at burst b) the bytes
+// read by time T are then bounded by b + r*T per connection and, for the shared total limiter,
+// summed over all connections of the handler.
+//@ func (tc throttledConn) Read(p []byte) (n int, err error)
+//@ requires tc.Conn != nil && tc.logger != nil
+//@ requires[inv] tc.totalLimiter != nil ==> burstof(tc.totalLimiter) >= 0
+//@ requires[inv] tc.localLimiter != nil ==> burstof(tc.localLimiter) >= 0
+//@ requires tc.totalLimiter != tc.localLimiter || tc.totalLimiter == nil
+//@ requires 0 <= tokens(tc.totalLimiter) && tokens(tc.totalLimiter) < 4611686018427387904 && 0 <= tokens(tc.localLimiter) && tokens(tc.localLimiter) < 4611686018427387904
+//@ safety C17
+//@ assigns[C17] p, rpos(tc.Conn), tokens(tc.totalLimiter), tokens(tc.localLimiter)
+//@ ensures[C17] 0 <= n && n <= len(p)
+//@ ensures[C17] rpos(tc.Conn) == old(rpos(tc.Conn)) + n
+//@ ensures[C17] forall k int :: 0 <= k && k < n ==> p[k] == rstream(tc.Conn)[old(rpos(tc.Conn)) + k]
+//@ ensures[C17] forall k int :: n <= k && k < len(p) ==> p[k] == old(p[k])
+//@ ensures[C17] tc.totalLimiter != nil ==> n <= tokens(tc.totalLimiter) - old(tokens(tc.totalLimiter)) || (n == 0 && tokens(tc.totalLimiter) == old(tokens(tc.totalLimiter)))
+//@ ensures[C17] tc.localLimiter != nil ==> n <= tokens(tc.localLimiter) - old(tokens(tc.localLimiter)) || (n == 0 && tokens(tc.localLimiter) == old(tokens(tc.localLimiter)))
+//@ ensures[C17] tc.totalLimiter != nil ==> tokens(tc.totalLimiter) - old(tokens(tc.totalLimiter)) <= burstof(tc.totalLimiter) && tokens(tc.totalLimiter) >= old(tokens(tc.totalLimiter))
+//@ ensures[C17] tc.localLimiter != nil ==> tokens(tc.localLimiter) - old(tokens(tc.localLimiter)) <= burstof(tc.localLimiter) && tokens(tc.localLimiter) >= old(tokens(tc.localLimiter))
+
+// Provision establishes the module invariant the reads rely on: burst sizes are non-negative and
+// the shared total limiter, if any, has exactly the configured total burst.
+//@ func (h *Handler) Provision(ctx caddy.Context) (err error)
+//@ requires h.totalLimiter == nil
+//@ safety C17
+//@ ensures[C17] err == nil ==> h.ReadBurstSize >= 0 && h.TotalReadBurstSize >= 0
+//@ ensures[C17] err == nil && h.totalLimiter != nil ==> burstof(h.totalLimiter) == h.TotalReadBurstSize
+
+// Handle installs the throttled connection in front of the inner one (same stream) with a fresh
+// per-connection limiter of the configured burst and the handler-wide total limiter.
+//@ func (h *Handler) Handle(cx *layer4.Connection, next layer4.Handler) (err error)
+//@ requires cx != nil && cx.Conn != nil && cx.Context != nil && next != nil && h.logger != nil
+//@ requires[inv] h.ReadBurstSize >= 0
+//@ safety C17
